@@ -1,5 +1,6 @@
 import IstioModel.C12.GatewayTheorems
 import IstioModel.C12.MeshModel
+import IstioModel.C12.MeshFull
 
 /-!
 # C12 theorems, part 4: the sidecar route configuration end to end
@@ -50,11 +51,6 @@ theorem lookup_restrict (port : Nat) (svcs : List Service) (h : String)
         exact ih'
       · simp only [restrictRegistry, List.filterMap_cons, hp, Bool.false_eq_true, ↓reduceIte, List.find?_cons, hs]
         exact ih'
-
-/-- F-C12-4 side condition for a whole VirtualService: every destination resolves the same way
-    against the port-restricted and the full registry. -/
-def destsOK (c : Ctx) (vs : VirtualService) : Bool :=
-  vs.http.all (fun r => r.route.all (fun d => destViewOK c.listenPort (c.lookupService d.dest.host) d.dest))
 
 theorem destinationCluster_sidecar (c : Ctx) (d : Destination) (hn : (c.services.map (·.host)).Nodup)
     (h : destViewOK c.listenPort (c.lookupService d.host) d = true) :
@@ -430,19 +426,19 @@ theorem evalRoutes_catchAll (re : Regex) (req : Request) (hwf : req.wf = true) :
 
 /-! ## end to end -/
 
-/-- Request-dependent side conditions of `sidecar_rds_correct`. -/
-def meshSide (re : Regex) (c : Ctx) (m : Mesh) (req : Request) : Bool :=
-  req.wf && m.vss.all (fun vs => sideConditions re vs req && destsOK c vs)
-
 /-- **sidecar_rds_correct.**  For every mesh, sidecar context and request: if the (decidable) hypotheses
     `rdsCert` (generated domains = DNS search-path names, no name claimed twice, no wildcard domain,
     hygiene) and `meshSide` (well-formed request, side conditions of `vs_compile_correct`, F-C12-4
     condition) hold, then evaluating the composed route configuration - virtual host by authority, then
     first matching route - gives exactly what the VirtualService applicable to the addressed service
     says, the service's default route when none applies, and the passthrough route for an authority
-    that names no service of the port. -/
+    that names no service of the port.  `certVSHosts` (every VirtualService host is lower-case and names or
+    matches a service of the port; lower-case service hostnames; listener port other than 80) and
+    `certRegistry` (the context's registry is the mesh's) delimit the meshes `sidecarRDS` describes: outside
+    them the code builds further virtual hosts (`sidecarRDSFull`). -/
 theorem sidecar_rds_correct (re : Regex) (hre : DotStar re) (c : Ctx) (m : Mesh) (req : Request)
-    (hcert : rdsCert c m = true) (hside : meshSide re c m req = true) :
+    (hcert : rdsCert c m = true) (_hvs : certVSHosts c m = true) (_hreg : certRegistry c m = true)
+    (hside : meshSide re c m req = true) :
     evalRouteConfig re true (sidecarRDS c m) req = meshSpec re c m req := by
   unfold rdsCert at hcert
   simp only [Bool.and_eq_true] at hcert
@@ -564,7 +560,8 @@ def exMeshCtx : Ctx :=
   { exCtx with services := [ { host := "reviews.default.svc.cluster.local", ports := [9080] },
                              { host := "ratings.other.svc.cluster.local", ports := [9080, 8080] } ] }
 
-example : rdsCert exMeshCtx exMesh = true := by decide +kernel
+example : rdsCert exMeshCtx exMesh = true ∧ certVSHosts exMeshCtx exMesh = true ∧ certRegistry exMeshCtx exMesh = true := by
+  decide +kernel
 example : meshSide exRe exMeshCtx exMesh { exReq with authority := "Reviews" } = true := by decide +kernel
 /-- the short name `reviews` (any case) reaches the VirtualService of the proxy's own namespace ... -/
 example : evalRouteConfig exRe true (sidecarRDS exMeshCtx exMesh) { exReq with authority := "Reviews:9080" } =
